@@ -65,6 +65,20 @@ def run_real(netaddr, a):
     op = a[0]
     if op == 'parse':
         _, be, s, ver, flags = a
+        # bystander calls: the public validity helpers are pure; what they were asked before (same text,
+        # other flags) must not colour this parse (a seeded change remembered valid_ipv4's last answer)
+        import zlib
+        h = zlib.crc32(repr((s, ver, flags)).encode('utf-8', 'replace'))
+        if h & 1:
+            for f in ((0, 1, 2), (2, 0), (1,), (2, 1, 0))[(h >> 1) % 4]:
+                try:
+                    netaddr.valid_ipv4(s, f)
+                except Exception:
+                    pass
+            try:
+                netaddr.valid_ipv6(s)
+            except Exception:
+                pass
         try:
             ip = netaddr.IPAddress(s, ver, flags)
             return '%d %d' % (ip.version, int(ip))
@@ -588,6 +602,9 @@ def generate(rng, tier):
         strings.append(ref_quad(v))
         # zero-padded spelling of the same value (ZEROFILL domain)
         strings.append('.'.join(('%%0%dd' % rng.randrange(1, 5)) % ((v >> sh) & 255) for sh in (24, 16, 8, 0)))
+        if rng.random() < 0.3:
+            # heavy padding: ZEROFILL text has no length limit (total lengths up to ~70 characters)
+            strings.append('.'.join(('%%0%dd' % rng.choice((1, 3, 8, 11, 12, 17))) % ((v >> sh) & 255) for sh in (24, 16, 8, 0)))
     # ---- strings
     strings += NEAR4 + NEAR6
     for _ in range(150 * mult):
